@@ -111,10 +111,13 @@ class ObjList(PList):
     """Symbolic-length list whose elements are instances of one class that differ only in scalar fields:
     element k has fields `fixed` (shared values) and, for each name in `varying`, the entry k of a z3 array."""
 
-    def __init__(self, cls, fixed, varying, n):
+    def __init__(self, cls, fixed, varying, n, avarying=None):
         super().__init__()
         self.items = None
         self.cls_, self.fixed = cls, dict(fixed)
+        # array-valued fields that differ per element: name -> (Array Int (Array Int kind), Array Int Int [lengths], kind); every element
+        # owns its array (the comprehension evaluated the constructor once per position)
+        self.avarying = dict(avarying or {})
         self.vnames = list(varying)
         self.kinds = [varying[v][1] for v in self.vnames]
         self.cols = [varying[v][0] for v in self.vnames]
@@ -127,6 +130,8 @@ class ObjList(PList):
         f = dict(self.fixed)
         for nm, c, k in zip(self.vnames, self.cols, self.kinds):
             f[nm] = Sym(z3.simplify(z3.Select(c, iz)), k)
+        for nm, (arrs, lens, k) in self.avarying.items():
+            f[nm] = SArr(z3.simplify(z3.Select(arrs, iz)), z3.simplify(z3.Select(lens, iz)), k, name=nm)
         return Obj(self.cls_, f)
 
     def col(self, name):
@@ -145,6 +150,10 @@ def _obj_comprehension(eng, n, fr, kind, first):
     saved = list(eng.pc)
     eng.pc.append(z3.And(i >= 0, i < nz))
     eng.pure_mode = getattr(eng, "pure_mode", 0) + 1
+    from .values import next_uid
+
+    mark = next_uid()
+    before = _UidsUpTo(mark)
     try:
         vv = eng.ev(n.elt, sub)
     finally:
@@ -155,16 +164,49 @@ def _obj_comprehension(eng, n, fr, kind, first):
             eng.pc.append(z3.ForAll([i], z3.Implies(z3.And(i >= 0, i < nz), h)))
     if not isinstance(vv, Obj):
         return None
-    fixed, varying = {}, {}
+    fixed, varying, avarying = {}, {}, {}
     for nm, val in vv.fields.items():
         if isinstance(val, Sym):
             varying[nm] = (z3.Lambda([i], val.z), val.kind)
         elif kind_of(val) is not None:
             varying[nm] = (z3.Lambda([i], to_z3(val)), kind_of(val))
+        elif isinstance(val, SArr) and val.uid not in before:  # an array allocated by the element expression (e.g. np.array(entry))
+            avarying[nm] = (_eta(i, val.arr), _eta(i, val.nz()), val.kind)
         else:
             fixed[nm] = val
-    out = ObjList(vv.cls, fixed, varying, z3.simplify(nz))
+    out = ObjList(vv.cls, fixed, varying, z3.simplify(nz), avarying)
     return Iter(out) if kind == "gen" else out
+
+
+def _eta(i, body):
+    """Lambda i. body, written as the array A itself when body is A[i] with i not free in A"""
+    if z3.is_select(body) and body.arg(1).eq(i) and not _mentions(body.arg(0), i):
+        return body.arg(0)
+    return z3.Lambda([i], body)
+
+
+def _mentions(t, v):
+    todo, seen = [t], set()
+    while todo:
+        a = todo.pop()
+        if a.get_id() in seen:
+            continue
+        seen.add(a.get_id())
+        if a.eq(v):
+            return True
+        if z3.is_app(a):
+            todo.extend(a.children())
+        elif z3.is_quantifier(a):
+            todo.append(a.body())
+    return False
+
+
+class _UidsUpTo:
+    def __init__(self, mark):
+        self.mark = mark
+
+    def __contains__(self, uid):
+        return uid <= self.mark
 
 
 class ModelsProxy:
@@ -294,3 +336,160 @@ def _len(eng, args, kwargs):
 
 
 models.EXTRA_MODELS[len] = _len
+
+
+# ---------------------------------------------------------------------------------------------------------------
+# lists of int lists (and lists of those) of symbolic lengths: the values that Tree.get_paths hands through the traversal
+AII = z3.ArraySort(z3.IntSort(), z3.IntSort())
+AAII = z3.ArraySort(z3.IntSort(), AII)
+AAAII = z3.ArraySort(z3.IntSort(), AAII)
+
+
+def frozen_ints(content, n, name="ints"):
+    """an immutable int list (a write through it is a failed frame obligation)"""
+    p = PList()
+    p.items, p.cols, p.kinds, p.tup, p.n = None, [content], ["int"], False, n
+    p.name, p.frozen = name, True
+    return p
+
+
+class LList(PList):
+    """list (symbolic length n) of int lists: entry k is the list Select(val, k)[0 .. Select(lens, k)).  The element lists are
+    immutable in this model: they are handed out as frozen snapshots."""
+
+    def __init__(self, val, lens, n, name="ll"):
+        super().__init__()
+        self.items, self.cols, self.kinds, self.tup, self.n, self.name = None, [val, lens], ["int*", "int"], False, n, name
+
+    @staticmethod
+    def fresh(eng, name="ll", n=None):
+        n = z3.Int(fresh_name(name + "_len")) if n is None else n
+        v, l = z3.Const(fresh_name(name + "_v"), AAII), z3.Const(fresh_name(name + "_l"), AII)
+        i = z3.Int(fresh_name("i"))
+        eng.assume(z3.And(n >= 0, z3.ForAll([i], z3.Select(l, i) >= 0)))
+        return LList(v, l, n, name)
+
+    def get(self, i):
+        iz = to_z3(i, "int")
+        return frozen_ints(z3.Select(self.cols[0], iz), z3.Select(self.cols[1], iz), self.name + "_entry")
+
+    def promote(self, *a, **k):
+        raise Unsupported("promotion of a list of lists")
+
+    def __pyvc_getitem__(self, eng, idx):
+        if isinstance(idx, slice):
+            raise Unsupported("slice of a list of lists of symbolic length")
+        return self.get(models.norm_index(eng, idx, self.n, "list index"))
+
+
+def ll_view(v):
+    """(val: Array Int (Array Int Int), lens: Array Int Int, n) of a list of int lists: an LList, or a concrete list whose
+    items are int lists"""
+    if isinstance(v, LList):
+        return v.cols[0], v.cols[1], zint(v.n)
+    if isinstance(v, PList) and v.items is not None and all(isinstance(x, PList) and not isinstance(x, LList) for x in v.items):
+        val, lens = z3.K(z3.IntSort(), z3.K(z3.IntSort(), z3.IntVal(0))), z3.K(z3.IntSort(), z3.IntVal(0))
+        for k, x in enumerate(v.items):
+            if x.items is None:
+                if x.kinds != ["int"] or x.tup:
+                    return None
+                c, ln = x.cols[0], zint(x.n)
+            else:
+                c = z3.K(z3.IntSort(), z3.IntVal(0))
+                for j, e in enumerate(x.items):
+                    if kind_of(e) not in ("int", "bool"):
+                        return None
+                    c = z3.Store(c, j, to_z3(e, "int"))
+                ln = z3.IntVal(len(x.items))
+            val, lens = z3.Store(val, k, c), z3.Store(lens, k, ln)
+        return val, lens, z3.IntVal(len(v.items))
+    return None
+
+
+class StarSeq:
+    """`*seq` of a sequence of symbolic length, handed to the callee's model as one marker argument"""
+
+    def __init__(self, seq):
+        self.seq = seq
+
+
+class LLList(PList):
+    """list (symbolic length n) of lists of int lists: entry k is LList(Select(val, k), Select(lens, k), Select(ns, k))"""
+
+    def __init__(self, val, lens, ns, n, name="lll"):
+        super().__init__()
+        self.items, self.cols, self.kinds, self.tup, self.n, self.name = None, [val, lens, ns], ["int**", "int*", "int"], False, n, name
+
+    @staticmethod
+    def fresh(eng, n, name="lll"):
+        v, l, ns = z3.Const(fresh_name(name + "_v"), AAAII), z3.Const(fresh_name(name + "_l"), AAII), z3.Const(fresh_name(name + "_n"), AII)
+        i, j = z3.Int(fresh_name("i")), z3.Int(fresh_name("j"))
+        eng.assume(z3.ForAll([i], z3.Select(ns, i) >= 0))
+        eng.assume(z3.ForAll([i, j], z3.Select(z3.Select(l, i), j) >= 0))
+        return LLList(v, l, ns, n, name)
+
+    def get(self, i):
+        iz = to_z3(i, "int")
+        return LList(z3.Select(self.cols[0], iz), z3.Select(self.cols[1], iz), z3.Select(self.cols[2], iz), self.name + "_entry")
+
+    def promote(self, *a, **k):
+        raise Unsupported("promotion of a list of lists of lists")
+
+    def __pyvc_getitem__(self, eng, idx):
+        if isinstance(idx, slice):
+            raise Unsupported("slice of a list of lists of symbolic length")
+        return self.get(models.norm_index(eng, idx, self.n, "list index"))
+
+    def __pyvc_star__(self, eng):
+        return StarSeq(self)
+
+
+def chain_star(eng, lll):
+    """itertools.chain(*L) for a list L (symbolic length K) of lists of int lists: the concatenation.  Ghost offsets:
+    off(0) = 0, off(k+1) = off(k) + len(L[k]), off monotone; the result has off(K) entries, entry off(k) + j is L[k][j]
+    (0 <= j < len(L[k])), and every position i < off(K) lies in exactly one segment seg(i)."""
+    eng.assumptions.add("stdlib-model:itertools.chain(*L) over a list of lists of symbolic length = their concatenation (ghost offsets off(k) = len(L[0]) + ... + len(L[k-1]), monotone; seg(i) = the list that position i comes from)")
+    val3, lens2, ns = lll.cols
+    K = zint(lll.n)
+    tag = fresh_name("cat")
+    off = z3.Function(tag + "_off", z3.IntSort(), z3.IntSort())
+    seg = z3.Function(tag + "_seg", z3.IntSort(), z3.IntSort())
+    k, k2, i = z3.Int("k_" + tag), z3.Int("m_" + tag), z3.Int("i_" + tag)
+    eng.assume(off(0) == 0)
+    eng.assume(z3.ForAll([k], z3.Implies(z3.And(0 <= k, k < K), off(k + 1) == off(k) + z3.Select(ns, k)), patterns=[off(k + 1), z3.Select(ns, k)]))
+    eng.assume(z3.ForAll([k, k2], z3.Implies(z3.And(0 <= k, k <= k2, k2 <= K), off(k) <= off(k2)), patterns=[z3.MultiPattern(off(k), off(k2))]))
+    eng.assume(z3.ForAll([i], z3.Implies(z3.And(0 <= i, i < off(K)), z3.And(0 <= seg(i), seg(i) < K, off(seg(i)) <= i, i < off(seg(i) + 1))), patterns=[seg(i)]))
+    n = off(K)
+    # the result's entries as fresh arrays with pointwise definitions (no lambda terms: cheaper for the solver)
+    outv, outl = z3.Const(tag + "_v", AAII), z3.Const(tag + "_l", AII)
+    src = lambda arr3: z3.Select(z3.Select(arr3, seg(i)), i - off(seg(i)))
+    eng.assume(z3.ForAll([i], z3.Select(outv, i) == src(val3), patterns=[z3.Select(outv, i)]))
+    eng.assume(z3.ForAll([i], z3.Select(outl, i) == src(lens2), patterns=[z3.Select(outl, i)]))
+    out = LList(outv, outl, n, "chained")
+    eng.ghost["last-chain"] = dict(off=off, seg=seg, K=K, src=lll, out=out)
+    return out
+
+
+_chain0 = _chain
+
+
+def _chain(eng, args, kwargs):  # noqa: F811
+    if _mine(eng) and len(args) == 1 and isinstance(args[0], StarSeq) and isinstance(args[0].seq, LLList):
+        return Iter(chain_star(eng, args[0].seq))
+    return _chain0(eng, args, kwargs)
+
+
+models.EXTRA_MODELS[itertools.chain] = _chain
+
+
+def _list(eng, args, kwargs):
+    v = args[0] if args else None
+    inner = v.seq if isinstance(v, Iter) and not v.consumed else v
+    if isinstance(inner, LList):
+        if isinstance(v, Iter):
+            v.consumed = True
+        return LList(inner.cols[0], inner.cols[1], inner.n, "listed")  # a new list object with the same (immutable) element lists
+    return models._b_list(eng, args, kwargs)
+
+
+models.EXTRA_MODELS[list] = _list
